@@ -326,7 +326,14 @@ impl Sparse<f64> {
         let mut xs = x.clone() * scale;
         let result = solver( &( b.clone() * scale ), &mut xs );
         // x is left untouched when no iteration was made
-        if max_iter > 0 && result != Ok( 0 ) { *x = xs / scale; }
+        if max_iter > 0 && result != Ok( 0 ) {
+            let unscaled = xs / scale;
+            // An iterate that leaves the floating-point range in the caller's units is not a success
+            for i in 0..unscaled.size() {
+                if !unscaled[ i ].is_finite() { return Err( f64::INFINITY ); }
+            }
+            *x = unscaled;
+        }
         result
     }
 
